@@ -37,11 +37,18 @@ def run(ctx):
     ctx.rule('R-C08d', 'only the owner runs its events: every entry point that reaches the handler call is the handler of the state\'s own '
                        'local task / kick raw event (cookie = that state), the wrapper that runs the calling thread\'s state, or a poll '
                        'slot that saw this thread\'s own kick token', floor=4)
+    ctx.rule('R-C08e', 'TRANSPORT-FOLLOWS-COUNT (multi-threaded application): a thread\'s registration count is non-zero only while its '
+                       'wake-up transport is set up and never under-counts the registered events: a registration returns with the count '
+                       'raised only if the count was non-zero before or the set-up it triggered (count found at 0) succeeded; a set-up '
+                       'that failed, or whose result was not examined, leaves the count at its entry value 0, so that the next '
+                       'registration triggers it again; unregistration takes the count down by at most one and tears the transport '
+                       'down only where the count has reached 0', floor=4)
     ctx.rule('R-C08g', 'NULL-CONTRADICTION in iv_event.c', floor=0)
     derive_keys(ctx.prog)
     ctx.section(post)
     ctx.section(runner)
     ctx.section(who_runs)
+    ctx.section(transport_follows_count)
 
 
 def pt(e):
@@ -333,6 +340,15 @@ def _raw_mode_flags(prog):
                 tested |= {(op, lc, rc) for (op, lc, rc, l, r) in norm_cond(blk.term['cond'], pol)}
     if modes:
         modes = {m for m in modes if m in tested}       # what the code branches on, not what a store happens to imply
+    # ... and the tested atoms that hold at every site path by path (the flag was found set on one path and is set
+    # on the other: `if (!raw) { if (!rx_on()) return 0; raw = 1; } return raw_register()`), which the intersection
+    # of atom sets at the join does not show
+    cs = h08.CountStates(g, ())
+    reach = [S for e in sites for S in cs.at(e)]
+    if reach:
+        modes = set(modes or ()) | {(op, lc, rc) for (op, lc, rc) in tested
+                                    if op in ('==', '!=') and lc in shared and rc.lstrip('-').isdigit()
+                                    and all(cs.flag_implies(S, lc, op, int(rc)) for S in reach)}
     written = {canon(e['lhs']) for e in g.events() if e['ev'] == 'store'} & shared
     if modes and any(m[1] in written for m in modes):
         modes = {m for m in modes if m[1] in written}
@@ -347,6 +363,133 @@ def _head_of(m):
     if isinstance(m, dict) and m.get('k') == 'member':
         return m['base'] if m['arrow'] else {'k': 'addr', 'e': m['base']}
     return None
+
+
+# --------------------------------------------------------------------------
+# R-C08e: the registration count decides whether the wake-up transport is (to be) set up
+# --------------------------------------------------------------------------
+
+def _transport_contexts(prog, what):
+    """[(root, inlined root, CountStates, [site events])] for every entry point from which a set-up (what == 'setup')
+    or tear-down of a thread's wake-up transport is reachable: the raw-event API applied to the state's kick raw
+    event, or the poll method's event_rx_on / event_rx_off slot.  The raw-event API itself is not entered."""
+    names = (h08.RAW_SETUP, h08.SLOT_SETUP) if what == 'setup' else (h08.RAW_TEARDOWN, h08.SLOT_TEARDOWN)
+
+    def anchor(e):
+        if e['ev'] != 'call':
+            return False
+        return e.get('callee') == names[0] or callback_kind(e) == ('method', names[1])
+    owners = roles.functions_with(prog, anchor)
+    if not owners:
+        raise AnalysisBroken('no %s of a wake-up transport (%s / method->%s) in the library' % (what, names[0], names[1]))
+    out, seen = [], set()
+    work = sorted(h08.nearest_roots(prog, owners).items())
+    while work:
+        q, r = work.pop(0)
+        if q in seen:
+            continue
+        seen.add(q)
+        g = h08.inline(prog, r, stop=lambda t: t.name in (h08.RAW_SETUP, h08.RAW_TEARDOWN))
+        sites = [e for e in g.events() if e['ev'] == 'call' and (h08.transport_site(e) or ('', ''))[0] == what]
+        if not any(h08.transport_site(e)[1] == 'raw' for e in sites):
+            continue                        # the kick raw event of a state is not concerned
+        tracked = h08.counter_fields(g)
+        if not tracked:
+            # an entry point that only performs the set-up / tear-down (moved behind a non-static function): the
+            # count is kept by its callers in the library, which are judged with it inlined
+            up = [c for (c, e) in prog.callers_of(r.name) if prog.resolve(prog.unit_of(c), r.name) is r]
+            if up:
+                work.extend(sorted(h08.nearest_roots(prog, up).items()))
+                continue
+        cs = h08.CountStates(g, tracked)
+        sites = [e for e in sites if cs.at(e)]
+        if not sites:
+            continue                        # dead in this context (a merged helper entered with the other constant)
+        out.append((r, g, cs, sites))
+    if not out:
+        raise AnalysisBroken('no entry point performs the %s of the kick raw event (%s(&state->%s))' % (what, names[0], K.KICK[1]))
+    return out
+
+
+def transport_follows_count(ctx):
+    prog = ctx.prog
+    regs = _transport_contexts(prog, 'setup')
+    unregs = _transport_contexts(prog, 'teardown')
+
+    # the registration count, by role: the integer member of the state whose value on entry is known to be 0 wherever
+    # the registering entry point reaches a set-up, and whose current value is known to be 0 wherever the unregistering
+    # entry point reaches a tear-down
+    def zero_on_entry(cs, F, S):
+        c = S['f0'].get(F)
+        return bool(c) and c == ('==', 0)
+
+    def zero_now(cs, F, S):
+        return cs.field_value(F, S) == ('c', 0)
+
+    def governed(ctxs, pred):
+        out = None
+        for root, g, cs, sites in ctxs:
+            here = {F for F in cs.tracked if all(pred(cs, F, S) for e in sites for S in cs.at(e))}
+            out = here if out is None else (out & here)
+        return out or set()
+    by_reg, by_unreg = governed(regs, zero_on_entry), governed(unregs, zero_now)
+    cands = (by_reg & by_unreg) or (by_reg | by_unreg)
+    if len(cands) != 1:
+        raise AnalysisBroken('the registration count that governs the set-up / tear-down of the wake-up transport is not identifiable '
+                             '(tested == 0 before every set-up: %s; == 0 at every tear-down: %s)'
+                             % (sorted(by_reg) or '-', sorted(by_unreg) or '-'))
+    F = next(iter(cands))
+    Fn = '%s.%s' % F
+    acc = Acc()
+
+    def fmt(d):
+        return 'unknown' if d is None else ('%+d' % d if d else 'none')
+
+    def attempts(cs, S):
+        return ', '.join('%s %s' % ({'raw': '%s(&state->%s)' % (h08.RAW_SETUP, K.KICK[1]), 'slot': 'method->%s' % h08.SLOT_SETUP}[k],
+                                    {'pending': 'called, result not examined', 'ok': 'succeeded', 'failed': 'failed'}[v])
+                         for k, v in sorted(cs.attempted(S).items()))
+
+    for root, g, cs, sites in regs:
+        for S in cs.at_exit():
+            if S['mt'] is False:
+                continue                    # single-threaded process: no poster in another thread, no transport needed
+            loc = S['ret'][0] if S['ret'] else root.loc
+            d = cs.delta(F, S)
+            up = cs.transport_up(S)       # (the attempt made last decides: it is the transport the code settled for)
+            if S['att'] and not up:
+                acc.add('R-C08e', '%s:failed-setup-leaves-count-at-entry' % root.name, loc, d == 0,
+                        'on a return path on which the set-up of the wake-up transport did not succeed (%s) %s is back at the value '
+                        'it had on entry (0 = not set up): the next registration in this thread triggers the set-up again instead of '
+                        'relying on a transport that does not exist; net change of the count on this path: %s'
+                        % (attempts(cs, S), Fn, fmt(d)), root.q)
+                continue
+            acc.add('R-C08e', '%s:registration-counted' % root.name, loc, d is not None and d >= 1,
+                    'a registration that returns with the transport up or not needed leaves %s raised (an event that is not counted '
+                    'lets the unregistration of another one tear the transport down); net change on this path: %s' % (Fn, fmt(d)), root.q)
+            c0 = S['f0'].get(F)
+            was_nonzero = bool(c0) and ((c0[0] == '!=' and 0 in c0[1]) or (c0[0] == '==' and c0[1] != 0))
+            acc.add('R-C08e', '%s:first-registration-sets-up' % root.name, loc, up or was_nonzero,
+                    'a registration returns without a successful set-up of the wake-up transport only where %s was found non-zero '
+                    '(the transport is up since the registration that raised it from 0); on this path: %s, %s'
+                    % (Fn, attempts(cs, S) or 'no set-up attempted',
+                       'count on entry %s' % ('== %d' % c0[1] if c0 and c0[0] == '==' else ('!= 0' if was_nonzero else 'not tested'))), root.q)
+    for root, g, cs, sites in unregs:
+        for e in sites:
+            kind = h08.transport_site(e)[1]
+            ok = all(cs.field_value(F, S) == ('c', 0) for S in cs.at(e))
+            acc.add('R-C08e', '%s:teardown-only-at-zero:%s' % (root.name, kind), e['loc'], ok,
+                    'the wake-up transport is torn down (%s) only where %s has reached 0: no registered event is left behind '
+                    'without a transport' % (describe(e), Fn), root.q, None if ok else path_to(g, e))
+        for S in cs.at_exit():
+            if S['mt'] is False:
+                continue
+            loc = S['ret'][0] if S['ret'] else root.loc
+            d = cs.delta(F, S)
+            acc.add('R-C08e', '%s:count-down-at-most-one' % root.name, loc, d is not None and d >= -1,
+                    'an unregistration takes %s down by at most one (a count below the number of registered events makes the '
+                    'next registration skip, or another unregistration perform, the set-up / tear-down); net change: %s' % (Fn, fmt(d)), root.q)
+    acc.emit(ctx)
 
 
 # --------------------------------------------------------------------------
